@@ -261,7 +261,19 @@ pub enum Ev {
 }
 
 pub type Events = Rc<RefCell<Vec<Ev>>>;
-pub type Kept = Rc<RefCell<Vec<(Array, &'static str)>>>;
+/// registry of handles kept alive on purpose, each with the bit-exact snapshot taken when it was registered
+pub struct KeptHandle {
+    pub a: Array,
+    pub kind: &'static str,
+    pub dims: Vec<usize>,
+    pub bits: Vec<u64>,
+    pub iteration: usize,
+}
+pub type Kept = Rc<RefCell<Vec<KeptHandle>>>;
+pub fn keep(k: &Kept, a: &Array, kind: &'static str) {
+    let it = k.borrow().iter().filter(|h| h.kind == "training-input").count();
+    k.borrow_mut().push(KeptHandle { a: a.clone(), kind, dims: a.dimensions().to_vec(), bits: bits(a), iteration: it });
+}
 
 /// Implements `Layer` around a real layer; records copies of what crosses the boundary (never handles, unless a
 /// `kept` registry is supplied on purpose - the C08 snapshot monitor).
@@ -276,15 +288,17 @@ impl<L: Layer> Layer for SpyLayer<L> {
         let params: Vec<Obs> = self.inner.borrow_mut().parameters().iter().map(|p| Obs::of(p)).collect();
         let in_obs = Obs::of(&input);
         if let Some(k) = &self.kept {
-            let mut k = k.borrow_mut();
-            k.push((input.clone(), "layer-input"));
+            keep(k, &input, "layer-input");
             for p in self.inner.borrow_mut().parameters() {
-                k.push((p.clone(), "parameter-before-update"));
+                keep(k, p, "parameter-before-update");
+                if let Some(g) = p.gradient().as_ref() {
+                    keep(k, g, "parameter-gradient");
+                }
             }
         }
         let output = self.inner.borrow().forward(input);
         if let Some(k) = &self.kept {
-            k.borrow_mut().push((output.clone(), "layer-output"));
+            keep(k, &output, "layer-output");
         }
         self.events.borrow_mut().push(Ev::Forward { layer: self.id, input: in_obs, params, output: Obs::of(&output), output_tracked: is_tracked(&output) });
         output
@@ -397,7 +411,7 @@ pub struct TrainRun {
     pub outputs: Vec<Obs>,
     pub output_tracked: Vec<bool>,
     /// ledger readings right after each update (only meaningful without spies; here informational)
-    pub kept: Vec<(Array, &'static str)>,
+    pub kept: Vec<KeptHandle>,
 }
 
 /// Run the forward / backward / update loop of a real `Model` built from spied layers and a spied optimizer.
@@ -424,14 +438,14 @@ pub fn train_spied(spec: &NetSpec, params: &[T<f64>], iterations: &[Iteration], 
                 let input = arr_t(&it.input);
                 let target = arr_t(&it.target);
                 if keep_handles {
-                    kept.borrow_mut().push((input.clone(), "training-input"));
-                    kept.borrow_mut().push((target.clone(), "training-target"));
+                    keep(&kept, &input, "training-input");
+                    keep(&kept, &target, "training-target");
                 }
                 let out = model.forward(input);
                 outputs.push(Obs::of(&out));
                 output_tracked.push(is_tracked(&out));
                 if keep_handles {
-                    kept.borrow_mut().push((out.clone(), "model-output"));
+                    keep(&kept, &out, "model-output");
                 }
                 let loss = model.backward(target);
                 if it.double_backward {
